@@ -182,8 +182,7 @@ def o1b(h):
             Le(0.0, d, when=v_eq(side, 0.0), name='nonnegative_on_the_line'),
             Eq(v_mul(v_sq(d), L2), v_sq(side), when=inside, name='inside_is_normal_component', scale=v_sq(L2)),
         ]
-    thorough = h.thorough()
-    c.prove('cpp_distance', spec, cap=120 if thorough else 40, order=('nlsat', 'core'))
+    c.prove('cpp_distance', spec, cap=120 if h.thorough() else 40, order=('nlsat', 'core'))
 
 
 @obligation(P, 'O1.closest_of_several_edges', cap=120)
@@ -193,8 +192,10 @@ def o1c(h):
     M = _mods()
     E, C = M['EdgeCpp'], M['Contact']
     h.encoded(C.get_closest_distance)
-    n = 4
+    n = 8 if h.thorough() else 4
     h.bounds('%d candidate edges, every combination of real signed distances' % n)
+    h.outside('Contact.py neighbour search (get_potential_interaction_list / min_dist_squared), closest-edge field weights and the smoothed two-edge distance '
+              '(EdgeCpp.smooth_distance) are not encoded')
     h.assume_note('stub: EdgeCpp.cpp_distance(edge_k, p) is replaced at trace and replay time by the arbitrary real edge_k[0,0] '
                   '(its actual value is the subject of O1.cpp_distance); only the selection logic of get_closest_distance is encoded here')
 
@@ -220,14 +221,14 @@ def o1c(h):
 
 
 # ============================================================================================ O2 / O3 level sets
-def _boundary():
-    """the repository's structured 3x2 mesh; its two top edges (as found by Surface.create_edges) are the contact boundary"""
+def _boundary(nedges=2):
+    """the repository's structured (nedges+1)x2 mesh; its top edges (as found by Surface.create_edges) are the contact boundary"""
     M = _mods()
-    mesh = M['Mesh'].construct_structured_mesh(3, 2, [0., 2.], [0., 1.])
+    mesh = M['Mesh'].construct_structured_mesh(nedges + 1, 2, [0., float(nedges)], [0., 1.])
     coords = onp.asarray(mesh.coords)
     edges = M['Surface'].create_edges(mesh.coords, mesh.conns, lambda xs: bool(onp.all(onp.asarray(xs)[:, 1] > 1. - 1e-8)))
     edges = onp.asarray(edges)
-    assert edges.shape == (2, 2), edges
+    assert edges.shape == (nedges, 2), edges
     conns = onp.asarray(mesh.conns)
     nodes = [[int(conns[e][n]), int(conns[e][(n + 1) % 3])] for e, n in edges]
     quad = M['QR'].create_quadrature_rule_1D(2)
@@ -269,6 +270,10 @@ def _smp_mesh(coords, nprm):
         U = 0.3 * rng.normal(size=coords.shape)
         return [X, U, abs(rng.normal()) + 0.1, rng.normal(size=nprm) * 0.5 + 0.7]
     return smp
+
+
+def _ex_disp(coords):
+    return 0.1 * onp.cos(onp.arange(float(coords.size)).reshape(coords.shape))
 
 
 def _vars_of(t, acc=None):
@@ -345,11 +350,12 @@ def _o2(h, name):
     import z3
     M = _mods()
     Pn, S, L = M['Penalty'], M['Surface'], M['Levelset']
-    mesh, coords, edges, nodes, quad = _boundary()
+    ne = 4 if h.thorough() else 2
+    mesh, coords, edges, nodes, quad = _boundary(ne)
     h.encoded(Pn.compute_total_penalty_contact_energy, Pn.compute_edge_penalty_contact_energy, S.integrate_values, S.eval_field, S.get_field_index,
               M['QR'].eval_at_iso_points, getattr(L, name))
-    h.bounds('2-edge boundary (top of the 3x2 structured mesh, connectivity concrete), 2-point Gauss rule of the repository; nodal reference '
-             'coordinates (6x2), displacements (6x2), stiffness and all level-set parameters symbolic, all reals',
+    h.bounds('%d-edge boundary (top of the %dx2 structured mesh, connectivity concrete; 2 edges in the quick tier, 4 in the thorough tier), 2-point Gauss '
+             'rule of the repository; nodal reference coordinates, displacements, stiffness and all level-set parameters symbolic, all reals' % (ne, ne + 1),
              '"== 0 iff" needs stiffness > 0 and non-degenerate reference edges; ">= 0" needs stiffness >= 0')
     h.outside('other meshes / numbers of edges (the per-edge computation is vmapped, identical for every edge)', 'higher-order quadrature')
     xig = [float(x) for x in onp.asarray(quad.xigauss)]
@@ -362,7 +368,7 @@ def _o2(h, name):
     def fn(X, U, k, prm):
         m = mesh._replace(coords=X, conns=conns)
         return Pn.compute_total_penalty_contact_energy(lambda x: lsf(x, prm), U, m, quad, jedges, k)
-    ex = dict(X=coords, U=0.1 * onp.cos(onp.arange(12.).reshape(6, 2)), k=2.0, prm=onp.array(pex))
+    ex = dict(X=coords, U=_ex_disp(coords), k=2.0, prm=onp.array(pex))
     c = Case(h, fn, ex, sampler=_smp_mesh(coords, len(pex)), label=name)
 
     def spec(i, o):
@@ -387,13 +393,17 @@ def _o2(h, name):
         if any(v.startswith('prm') for v in _vars_of(a)):
             # which sample does this radius belong to: matched on a ground evaluation (a heuristic; soundness comes from the lemma's proof)
             hit = [j for j, x in enumerate(pts) if _ground_eval(c, a) == _ground_eval(c, sym.toz(_d2(x, q)))]
-            assert len(hit) == 1, hit
+            if len(hit) != 1:       # the code's radicand is not the oracle's |x_q - c|^2 at any sample: no chain, ask the solver directly
+                c.prove(name, spec, cap=100, order=('nlsat', 'core'))
+                return
             lemmas.append(('radius_of_sample_%d_vs_R' % hit[0], z3.And(s_ >= 0, (s_ >= q[2]) == nonneg(pts[hit[0]], q))))
         else:
             lemmas.append(('edge_jacobian_sign', z3.And(s_ >= 0, z3.Implies(a > 0, s_ > 0))))
         dropped.append(s_)
-    assert len(dropped) == (6 if name == 'sphere' else 2), len(dropped)
-    _prove_cut(h, c, name, spec, lemmas, dropped, cap=100)
+    if len(dropped) != (ne * 3 if name == 'sphere' else ne):
+        c.prove(name, spec, cap=100, order=('nlsat', 'core'))
+        return
+    _prove_cut(h, c, name, spec, lemmas, dropped, cap=300 if h.thorough() else 100)
 
 
 @obligation(P, 'O2.penalty_energy_plane', cap=120)
@@ -420,11 +430,12 @@ def o3(h):
     deformed sample points (1-xi_q)(X0+u0) + xi_q(X1+u1); compute_contact_point_coordinates = those points"""
     M = _mods()
     LC, Pn, S, L = M['LC'], M['Penalty'], M['Surface'], M['Levelset']
-    mesh, coords, edges, nodes, quad = _boundary()
+    ne = 4 if h.thorough() else 2
+    mesh, coords, edges, nodes, quad = _boundary(ne)
     h.encoded(LC.compute_levelset_constraints, LC.compute_edge_levelset_constraints, LC.compute_contact_point_coordinates, Pn.evaluate_contact_constraints,
               Pn.evaluate_levelset_on_edge, S.eval_field, S.get_field_index, M['QR'].eval_at_iso_points, L.plane, L.corner, L.sphere)
-    h.bounds('2-edge boundary (top of the 3x2 structured mesh, connectivity concrete), 2-point Gauss rule; reference coordinates, displacements '
-             'and level-set parameters symbolic, all reals', 'sphere: value v characterised without an ideal square root: v + R >= 0 and (v + R)^2 = |x - c|^2')
+    h.bounds('%d-edge boundary (top of the %dx2 structured mesh, connectivity concrete; 2 edges quick, 4 thorough), 2-point Gauss rule; reference '
+             'coordinates, displacements and level-set parameters symbolic, all reals' % (ne, ne + 1), 'sphere: value v characterised without an ideal square root: v + R >= 0 and (v + R)^2 = |x - c|^2')
     h.outside('other meshes / numbers of edges (per-edge computation is vmapped)')
     xig = [float(x) for x in onp.asarray(quad.xigauss)]
     conns = jnp.asarray(mesh.conns)
@@ -433,7 +444,7 @@ def o3(h):
 
     def pts_fn(X, U):
         return LC.compute_contact_point_coordinates(U, mesh._replace(coords=X, conns=conns), quad, jedges)
-    cp = Case(h, pts_fn, dict(X=coords, U=0.1 * onp.cos(onp.arange(12.).reshape(6, 2))), sampler=lambda rng: _smp_mesh(coords, 1)(rng)[:2], label='contact_points')
+    cp = Case(h, pts_fn, dict(X=coords, U=_ex_disp(coords)), sampler=lambda rng: _smp_mesh(coords, 1)(rng)[:2], label='contact_points')
 
     def spec_pts(i, o):
         pts = _samples(nodes, xig, i['X'], i['U'])
@@ -446,7 +457,7 @@ def o3(h):
             m = mesh._replace(coords=X, conns=conns)
             ls = lambda x: lsf(x, prm)
             return LC.compute_levelset_constraints(ls, U, m, quad, jedges), Pn.evaluate_contact_constraints(ls, U, m, quad, jedges)
-        ex = dict(X=coords, U=0.1 * onp.cos(onp.arange(12.).reshape(6, 2)), prm=onp.array(pex))
+        ex = dict(X=coords, U=_ex_disp(coords), prm=onp.array(pex))
         smp = lambda rng, n=len(pex): [v for k, v in enumerate(_smp_mesh(coords, n)(rng)) if k != 2]
         c = Case(h, fn, ex, sampler=smp, label=name)
 
@@ -1058,7 +1069,7 @@ def o5(h):
     h.encoded(Mo.integrate_with_mortar, Mo.compute_intersection, Mo.integrate_with_active_mortar, Mo.compute_average_normal, Mo.compute_normal_from_a, Mo.compute_normal)
     h.bounds('edgeA, edgeB in R^(2x2), translation t in R^2, common normal n in R^2 with both projection systems non-singular '
              '(det[tangentA, n] != 0, det[tangentB, n] != 0: stated explicitly, it is what makes the relational solve unique), 0 < l; 13 reals',
-             'quick tier: invariance of xiA, of the lengths and of both normal functions; thorough tier adds xiB, g and the two integrals')
+             'each lemma query is given only the definitional side conditions it needs (projection solves vs. square roots of the lengths)')
     h.outside('rotation invariance (DESIGNED_NOT_REGISTERED)', 'rounding: translation changes the floating-point results')
     h.assume_note('jnp.linalg.solve encoded relationally; uniqueness follows from the explicit det != 0 hypotheses', 'nan-tracking as in O4')
     one = lambda xa, xb, g: 1.0 + 0.0 * g
@@ -1076,7 +1087,7 @@ def o5(h):
     cj = jax.make_jaxpr(fn)(*[jnp.asarray(v) for v in ex.values()])
     _validate_nan(h, 'translation', fn, cj, gen, rtol=1e-7)
     c = Case(h, fn, ex, validate=0, ctx=_nan_ctx(), label='translation')
-    groups = [('xiA_invariant', 0), ('lengths_invariant', (3, 4))] + ([('xiB_invariant', 1), ('gap_invariant', 2)] if thorough else [])
+    groups = [('xiA_invariant', 0), ('lengths_invariant', (3, 4)), ('xiB_invariant', 1), ('gap_invariant', 2)]
 
     def grp(r, k):
         return [s0(r[j]) for j in k] if isinstance(k, tuple) else list(r[k])
@@ -1089,17 +1100,21 @@ def o5(h):
         r0, r1 = o
         return pre_of(i), [Eq(grp(r1, k), grp(r0, k), name=nm) for nm, k in groups] + [Eq([s0(r1[5]), s0(r1[6])], [s0(r0[5]), s0(r0[6])], name='integrals_invariant')]
     _, atoms = spec(c.inp, c.out)
-    base = pre_of(c.inp) + c.side(True)
+    side = c.side(True)
+    is_sqrt = lambda f: any(v.startswith('sqrt!') for v in _vars_of(f))
+    # each lemma gets only the definitions it needs (omitting assumptions keeps an unsat verdict sound)
+    bases = {True: pre_of(c.inp) + [f for f in side if is_sqrt(f)], False: pre_of(c.inp) + [f for f in side if not is_sqrt(f)]}
     for k, atom in enumerate(atoms[:-1]):
+        base = bases[atom.name == 'lengths_invariant']
+
         def concrete(vals, k=k):
             ci, co = c.conc_inputs(vals), c.real(vals)
             ca, catoms = spec(ci, co)
             return all(bool(x) for x in sym.flat(list(ca))), catoms[k], dict(outputs=[onp.asarray(l).tolist() for l in jax.tree_util.tree_leaves(co)][:6])
-        h.prove('any_normal.' + atom.name, base, atom, inputs=c.inp, concrete=concrete, cap=200 if thorough else 40)
-    if thorough:
-        r0, r1 = c.out
-        lemma_pairs = [(a, b) for _, k in groups for a, b in zip(grp(r1, k), grp(r0, k))]
-        _prove_rewrite(h, c, 'integrals_invariant', spec, pre_of(c.inp), lemma_pairs, [(s0(r1[5]), s0(r0[5])), (s0(r1[6]), s0(r0[6]))])
+        h.prove('any_normal.' + atom.name, base, atom, inputs=c.inp, concrete=concrete, cap=200 if thorough else 60)
+    r0, r1 = c.out
+    lemma_pairs = [(a, b) for _, k in groups for a, b in zip(grp(r1, k), grp(r0, k))]
+    _prove_rewrite(h, c, 'integrals_invariant', spec, pre_of(c.inp), lemma_pairs, [(s0(r1[5]), s0(r0[5])), (s0(r1[6]), s0(r0[6]))])
 
     # the repository's two common-normal functions depend on edge differences only
     cn = Case(h, lambda e, t: (Mo.compute_normal(e), Mo.compute_normal(e + t)), dict(e=ex['eA'], t=ex['t']),
@@ -1128,3 +1143,82 @@ def o5(h):
     r0, r1 = ca.out
     _prove_rewrite(h, ca, 'compute_average_normal_invariant', spec_avg, pre_a, [(a, b) for k in (0, 1) for a, b in zip(r1[k], r0[k])],
                    list(zip(r1[2], r0[2])), keep_side=True)
+
+
+@obligation(P, 'O5.mortar_rotation_invariance_partial', cap=400)
+def o5r(h):
+    """a common rotation (c, s), c^2 + s^2 = 1, of both segments and of the common normal leaves xiA, xiB, the two lengths and therefore the
+    mortar integral of 1 unchanged (general pairs).  The gap g and the gap integral are NOT covered (see DESIGNED_NOT_REGISTERED)."""
+    M = _mods()
+    Mo = M['Mortar']
+    h.encoded(Mo.integrate_with_mortar, Mo.compute_intersection, Mo.integrate_with_active_mortar)
+    h.bounds('edgeA, edgeB in R^(2x2), rotation (c, s) on the unit circle, common normal n in R^2 rotated along, both projection systems non-singular, 0 < l; 13 reals')
+    h.outside('invariance of the gap values g and of the gap integral under rotation (solver: unknown at 120 s, core and nlsat)',
+              'equivariance of the repository\'s normal functions under rotation (nested square roots)', 'rounding')
+    h.assume_note('jnp.linalg.solve encoded relationally; uniqueness follows from the explicit det != 0 hypotheses', 'nan-tracking as in O4')
+    one = lambda xa, xb, g: 1.0 + 0.0 * g
+
+    def fn(eA, eB, l, n, cs):
+        R = jnp.array([[cs[0], -cs[1]], [cs[1], cs[0]]])
+
+        def pack(a, b, nn):
+            xiA, xiB, g = Mo.compute_intersection(a, b, lambda p, q: nn)
+            return xiA, xiB, jnp.linalg.norm(a[0] - a[1]), jnp.linalg.norm(b[0] - b[1]), Mo.integrate_with_mortar(a, b, lambda p, q: nn, one, l)
+        return pack(eA, eB, n), pack(eA @ R.T, eB @ R.T, R @ n)
+    gen = [c_ + [[0.3, -0.9], [0.6, 0.8]] for c_ in _GEN_CASES] + [_GEN_CASES[4] + [[-0.2, 1.0], [-0.28, 0.96]]]
+    names = ['eA', 'eB', 'l', 'n', 'cs']
+    ex = dict(zip(names, [onp.array(gen[0][0]), onp.array(gen[0][1]), gen[0][2], onp.array(gen[0][3]), onp.array(gen[0][4])]))
+    cj = jax.make_jaxpr(fn)(*[jnp.asarray(v) for v in ex.values()])
+    _validate_nan(h, 'rotation', fn, cj, gen, rtol=1e-7)
+    c = Case(h, fn, ex, validate=0, ctx=_nan_ctx(), label='rotation')
+    groups = [('xiA_invariant', (0,)), ('xiB_invariant', (1,)), ('lengths_invariant', (2, 3))]
+
+    def grp(r, k):
+        return [x for j in k for x in (list(r[j]) if getattr(r[j], 'shape', ()) != () else [s0(r[j])])]
+
+    def pre_of(i):
+        detA, detB = _o5_spec_det(i)
+        cs = i['cs']
+        return [v_lt(0.0, _len2(i['eA'])), v_lt(0.0, _len2(i['eB'])), v_lt(0.0, s0(i['l'])), v_not(v_eq(detA, 0.0)), v_not(v_eq(detB, 0.0)),
+                v_eq(v_add(v_sq(cs[0]), v_sq(cs[1])), 1.0)]
+
+    def spec(i, o):
+        r0, r1 = o
+        return pre_of(i), [Eq(grp(r1, k), grp(r0, k), name=nm) for nm, k in groups] + [Eq(s0(r1[4]), s0(r0[4]), name='area_integral_invariant')]
+    _, atoms = spec(c.inp, c.out)
+    side = c.side(True)
+    is_sqrt = lambda f: any(v.startswith('sqrt!') for v in _vars_of(f))
+    # each lemma gets only the definitions it needs (omitting assumptions keeps an unsat verdict sound): the xi lemmas do not involve the
+    # square roots of the lengths, the length lemma does not involve the projection solves
+    bases = {True: pre_of(c.inp) + [f for f in side if is_sqrt(f)], False: pre_of(c.inp) + [f for f in side if not is_sqrt(f)]}
+    for k, atom in enumerate(atoms[:-1]):
+        base = bases[atom.name == 'lengths_invariant']
+
+        def concrete(vals, k=k):
+            # replay inputs: (c, s) is renormalised so that the float pair lies on the unit circle up to rounding
+            ci, co = c.conc_inputs(vals), c.real(vals)
+            ca, catoms = spec(ci, co)
+            ok = all(bool(x) for x in sym.flat(list(ca)[:-1])) and abs(float(ci['cs'][0]) ** 2 + float(ci['cs'][1]) ** 2 - 1.0) < 1e-12
+            return ok, catoms[k], dict(outputs=[onp.asarray(l).tolist() for l in jax.tree_util.tree_leaves(co)][:6])
+        h.prove('any_normal.' + atom.name, base, atom, inputs=c.inp, concrete=concrete, cap=200 if h.thorough() else 60)
+    r0, r1 = c.out
+    lemma_pairs = [(a, b) for _, k in groups for a, b in zip(grp(r1, k), grp(r0, k))]
+    _prove_rewrite(h, c, 'area_integral_invariant', spec, pre_of(c.inp), lemma_pairs, [(s0(r1[4]), s0(r0[4]))])
+
+
+DESIGNED_NOT_REGISTERED = [
+    ('O5.rotation_invariance_of_gap_and_gap_integral',
+     'compute_intersection gap values g (and hence the integral of g) under a common rotation of both segments and the normal: unknown at 120 s '
+     '(z3 core, nlsat, solve-eqs+nlsat; also per component at 90 s). xiA, xiB, lengths and the area integral ARE registered.'),
+    ('O5.rotation_equivariance_of_compute_average_normal', 'nested square roots (|nA - nB| of two normalised normals) under a symbolic rotation; not attempted beyond the '
+     'translation case, where the lemma/rewrite chain discharges'),
+    ('O4.mortar_end_to_end_bounds_without_smooth_linear_cut',
+     'integrate_with_mortar area bounds on the parallel family with the real smooth_linear inlined: partial-overlap configurations take 14 s or stay unknown at '
+     '60 s (erratic); registered instead as a chain: lemma on the real smooth_linear + goals with smooth_linear replaced by any function satisfying the lemma'),
+    ('O4.assembly_sum_equals_pair_integral_for_general_pairs',
+     'assemble_nodal_areas sum == integrate_with_mortar(1) for arbitrary segment pairs: needs uniqueness reasoning between the vmapped and the un-vmapped '
+     'relational 2x2 solves (unknown at 60 s); registered on the parallel family (exact first-moment identity, bounds, support) instead'),
+    ('O2.sphere_monolithic', 'penalty energy with Levelset.sphere as one query (4-6 sample square roots + edge Jacobians, 28+ reals): unknown at 60 s; registered as a cut-lemma '
+     'chain (radius sign lemma per sample, Jacobian sign lemma per edge, goals with those definitions dropped)'),
+    ('O1.smooth_distance', 'EdgeCpp.smooth_distance (two-edge smoothed distance) is not part of the C16 statement and is not encoded'),
+]
